@@ -832,3 +832,86 @@ Proof.
   intros. unfold run_fw, run_fw_seq. destruct (run_setup setup) as [[st o]|k]; simpl; auto.
   apply run_passes_repeat.
 Qed.
+
+(* ================================================================== deep-copy assignment *)
+Lemma assign_upd_ok : forall h d s cd cs,
+  rep h d cd -> rep h s cs -> (data d = None \/ data d <> data s) ->
+  exists h' l', list_assign h d s false = Safe (h', l') /\ upd_ok h d h' l' cs.
+Proof.
+  intros h d s cd cs Hd Hs Hne. rewrite (assign_spec h d s cd cs Hd Hs Hne).
+  destruct cs as [|c r]; do 2 eexists; (split; [reflexivity|]).
+  - apply (clear_ok h d cd Hd).
+  - apply (replace_ok h d cd (c :: r) Hd). discriminate.
+Qed.
+
+Lemma exec_inv2 : forall in_loop st s,
+  Inv st -> use_ok2 (map fst (f_glob st)) s = true -> post_ok st (f_exec in_loop st s).
+Proof.
+  intros in_loop st s HI U2. unfold use_ok2 in U2.
+  destruct (use_ok (map fst (f_glob st)) s) eqn:U. { now apply exec_inv. }
+  simpl in U2. destruct s; try discriminate.
+  apply andb_true_iff in U2. destruct U2 as [Ux Uy].
+  assert (Exy : Z.eqb x y = false).
+  { destruct (Z.eqb x y) eqn:E; auto. simpl in U. rewrite E, Ux in U. discriminate. }
+  pose proof HI as (Hloc & (_ & Hown & _) & _).
+  destruct (Inv_var st x HI Ux) as (lx & cx & Hx & Hlkx & Hrx).
+  destruct (Inv_var st y HI Uy) as (ly & cy & Hy & Hlky & Hry).
+  assert (Hne : x <> y) by (intro; subst; rewrite Z.eqb_refl in Exy; discriminate).
+  assert (D : data lx = None \/ data lx <> data ly).
+  { destruct (data lx) as [b|] eqn:Dx; auto. right. intro Heq.
+    apply (footprint_distinct lval optl (f_glob st) x y lx ly b Hown Hx Hy Hne); unfold optl;
+      [rewrite Dx | rewrite <- Heq]; simpl; auto. }
+  destruct (assign_upd_ok _ lx ly cx cy Hrx Hry D) as (h' & l' & E & UO).
+  unfold f_exec, f_declared. rewrite Hloc. unfold has at 1. simpl. unfold has. rewrite Hx.
+  rewrite Hlkx, Hlky, Exy, E. simpl. split; [eapply store_inv; eauto | now apply store_names].
+Qed.
+
+Lemma block_inv2 : forall in_loop ss st,
+  Inv st -> forallb (use_ok2 (map fst (f_glob st))) ss = true -> post_ok st (f_block in_loop st ss).
+Proof.
+  induction ss as [|s r IH]; intros st HI U; simpl in *.
+  - auto.
+  - apply andb_true_iff in U. destruct U as [U1 U2].
+    pose proof (exec_inv2 in_loop st s HI U1) as H1.
+    destruct (f_exec in_loop st s) as [[st1 o1]|k]; simpl in *; auto.
+    destruct H1 as [HI1 N1]. rewrite <- N1 in U2.
+    pose proof (IH st1 HI1 U2) as H2.
+    destruct (f_block in_loop st1 r) as [[st2 o2]|k]; simpl in *; auto.
+    destruct H2 as [HI2 N2]. split; auto. congruence.
+Qed.
+
+Lemma pass_inv2 : forall body st,
+  Inv st -> forallb (use_ok2 (map fst (f_glob st))) body = true -> post_ok st (run_pass body st).
+Proof.
+  intros body st HI U. unfold run_pass. pose proof (block_inv2 true body st HI U) as H.
+  destruct (f_block true st body) as [[st1 o]|k]; simpl in *; auto.
+  destruct H as [(Hl & Hw & Hb & Hc) N]. split; auto. unfold Inv. simpl. auto.
+Qed.
+
+Lemma passes_seq_inv2 : forall bodies st,
+  Inv st -> forallb (forallb (use_ok2 (map fst (f_glob st)))) bodies = true ->
+  match run_passes_seq bodies st with Safe st' => Inv st' | Unsafe k => k = OutOfBounds end.
+Proof.
+  induction bodies as [|b r IH]; intros st HI U; simpl in *; auto.
+  apply andb_true_iff in U. destruct U as [U1 U2].
+  pose proof (pass_inv2 b st HI U1) as H.
+  destruct (run_pass b st) as [[st1 o]|k]; simpl in *; auto.
+  destruct H as [HI1 N]. apply IH; auto. now rewrite N.
+Qed.
+
+Lemma owner_or_clone_fw_seq : forall setup bodies,
+  owner_or_clone_seq setup bodies = true ->
+  match run_fw_seq setup bodies with
+  | Safe st => wf_heap st /\ tight st
+  | Unsafe k => k = OutOfBounds
+  end.
+Proof.
+  intros setup bodies G. unfold owner_or_clone_seq in G.
+  destruct (setup_ok [] setup) as [decl|] eqn:S; try discriminate.
+  pose proof (setup_inv setup f_init decl Inv_init S) as H.
+  unfold run_fw_seq, run_setup.
+  destruct (f_block false f_init setup) as [[st0 o0]|k]; simpl in *; auto.
+  destruct H as [HI0 N0]. rewrite <- N0 in G.
+  pose proof (passes_seq_inv2 bodies st0 HI0 G) as H.
+  destruct (run_passes_seq bodies st0); auto. now apply Inv_wf_tight.
+Qed.
